@@ -44,6 +44,7 @@ LexExtra == <<<<39, 97>> \o NL \o <<98, 39, 32, 43, 32, 120>>, <<96, 97>> \o NL 
               <<34, 92, 110, 34, 32, 120>>, <<39, 233>> \o NL \o <<39, 120, 46, 121>>,
               <<49, 46, 53, 101, 43, 51, 32, 48, 120, 70, 32, 48, 98, 49, 48, 32, 48, 111, 55>>,
               <<49, 101, 48, 53, 32, 49, 46, 53, 101, 45, 48, 53, 32, 50, 69, 43, 48, 48, 55, 32, 48, 46, 50, 53, 101, 48, 48>>, <<49, 101, 48, 48>>, <<51, 101, 45, 48, 48, 55, 43, 49>>,
+              <<97, 13, 10, 43, 32, 98, 13, 10, 32, 32, 42, 32, 99>>, <<96, 120, 13, 10, 121, 96, 32, 43, 32, 122>>, <<34, 112, 34, 32, 13, 10, 13, 10, 32, 39, 113, 13, 10, 114, 39, 32, 120>>, <<97, 13, 43, 13, 98, 32, 10, 13, 32, 99>>,
               <<49, 46, 50, 46, 51>>, <<49, 101, 53, 101, 51>>, <<48, 53>>, <<49, 46>>, <<46, 53>>, <<49, 101>>, <<48, 120>>,
               <<34, 92, 117, 48, 48, 52, 49, 34>>, <<34, 92, 47, 34>>, <<34, 92, 113, 34>>, <<34, 97>>, <<96, 97>>, <<39, 97>>,
               <<120, 46, 121, 63, 122, 58, 119>>, <<120, 46, 94, 46, 121>>, <<120, 63, 63, 121>>, <<120, 63, 46, 121>>,
@@ -88,7 +89,10 @@ Shapes2 == <<X \o SP \o N_plus \o SP \o Y \o SP \o N_star \o SP \o Z, X \o SP \o
              N_lpar \o N_lpar \o X \o SP \o N_plus \o SP \o Y \o N_rpar \o N_rpar \o SP \o N_star \o SP \o Z,
              Z \o SP \o N_star \o SP \o N_lpar \o N_lpar \o X \o SP \o N_plus \o SP \o Y \o N_rpar \o N_rpar,
              N_lpar \o N_lpar \o N_lpar \o X \o N_rpar \o N_rpar \o N_rpar \o SP \o N_plus \o SP \o N_lpar \o N_lpar \o Y \o N_rpar \o N_rpar>>
-ShapesU == <<N_tilde \o SP \o X \o SP \o N_plus \o SP \o Y, X \o SP \o N_plus \o SP \o N_tilde \o SP \o Y,
+ShapesU == <<X \o SP \o N_plus \o SP \o N_tilde \o SP \o Y \o SP \o N_plus \o SP \o Z,
+             X \o SP \o N_plus \o SP \o N_tilde \o SP \o N_lpar \o Y \o SP \o N_plus \o SP \o Z \o N_rpar,
+             N_tilde \o SP \o N_tilde \o SP \o X \o SP \o N_plus \o SP \o Y \o SP \o N_bang,
+             N_tilde \o SP \o X \o SP \o N_plus \o SP \o Y, X \o SP \o N_plus \o SP \o N_tilde \o SP \o Y,
              X \o SP \o N_plus \o SP \o Y \o SP \o N_bang, X \o SP \o N_bang \o SP \o N_plus \o SP \o Y,
              N_tilde \o SP \o X \o SP \o N_bang, N_tilde \o SP \o N_tilde \o SP \o X, X \o SP \o N_bang \o SP \o N_bang,
              N_tilde \o SP \o X \o N_dot \o Y, N_tilde \o SP \o X \o N_lpar \o Y \o N_rpar, N_tilde \o SP \o X \o SP \o N_question \o SP \o Y \o SP \o N_colon \o SP \o Z>>
